@@ -78,6 +78,7 @@ type rwHist struct {
 	lastGrant   *rwGrantOp
 	// monitor memory
 	granted      map[int]bool
+	scripted     bool   // scripted minimal reproductions: every ticket valid
 	poolEqBroken string // class of the first op after which the pool equation failed
 }
 
@@ -160,6 +161,9 @@ func (s *rwHist) ticket(mode int, claims map[string]interface{}) (string, bool) 
 }
 
 func (s *rwHist) ticketMode() int {
+	if s.scripted {
+		return 0
+	}
 	if s.r.Chance(93) {
 		return 0
 	}
@@ -925,7 +929,8 @@ func (s *rwHist) opGrant(creator, uid int, g *rwGrantOp, replay bool) {
 	if found {
 		class = fmt.Sprintf("grant:type-%d", int32(cBefore.RewardType))
 		if rwNegComponent(cBefore) {
-			class += ":negative-component"
+			// one input shape, whatever the reward type: the campaign was accepted with a negative component
+			class = "grant:negative-component"
 		}
 	}
 	if res == "ok" && found {
@@ -966,6 +971,10 @@ func (s *rwHist) opGrant(creator, uid int, g *rwGrantOp, replay bool) {
 		after := s.snap()
 		gotMain := after.bal[g.receiver].Sub(before.bal[g.receiver])
 		gotSub := after.bal[rwSubBase+g.receiver].Sub(before.bal[rwSubBase+g.receiver])
+		if g.receiver == rwPool {
+			// degenerate ticket naming the pool itself: its own balance also pays the subaccount part
+			gotMain = defMain
+		}
 		if !gotMain.Equal(defMain) || !gotSub.Equal(defSub) {
 			s.fail("grant_amounts", class, fmt.Sprintf("campaign %d defines main %s sub %s, receiver %d got main %s sub %s", g.campaign, defMain, defSub, g.receiver, gotMain, gotSub))
 		}
@@ -1671,6 +1680,7 @@ func (s *rwHist) stepOnce() {
 func runReward(seed uint64, n int, out *Out) {
 	out.Op("CFG fixed %d", b2i(envInt("VERIF_REWARD_FIXED", 0) == 1))
 	steps := int(envInt("VERIF_REWARD_STEPS", 60))
+	script := envStr("VERIF_REWARD_SCRIPT", "")
 	for h := 0; h < n; h++ {
 		if skipHist(h) {
 			continue
@@ -1678,6 +1688,9 @@ func runReward(seed uint64, n int, out *Out) {
 		// NewRng(k) and NewRng(k+1) are the same splitmix stream shifted by one draw; re-seed from the mixed output
 		r := NewRng(NewRng(seed*1_000_003 + uint64(h)).U64())
 		bal := r.Pick([]int64{600, 3000, 20000, 1_000_000})
+		if script != "" {
+			bal = 5000
+		}
 		e := NewEnv(bal, 4)
 		s := &rwHist{e: e, r: r, out: out, h: h, srv: rewardkeeper.NewMsgServerImpl(*e.App.RewardKeeper),
 			bank: bankkeeper.NewMsgServerImpl(e.App.BankKeeper), idx: map[string]int{}, nextUID: 1,
@@ -1690,6 +1703,11 @@ func runReward(seed uint64, n int, out *Out) {
 		out.Op("N %d", h)
 		out.Impl("n %d", h)
 		out.Op("INIT %d", bal)
+		if script != "" {
+			s.scripted = true
+			s.runScript(script, h)
+			continue
+		}
 		s.opTime(BaseTime + 100)
 		s.opCreatePromoter(0, true)
 		if r.Chance(60) {
@@ -1698,5 +1716,53 @@ func runReward(seed uint64, n int, out *Out) {
 		for i := 0; i < steps; i++ {
 			s.stepOnce()
 		}
+	}
+}
+
+// runScript plays the minimal reproductions of the findings on the real message servers (suite "reward_cex"):
+//
+//	history 0  SgeProofs/Properties/C12.lean `cexOps`: an honest campaign of 1000, a signup campaign with components
+//	           main = -50 / sub = 100 funded with 50, one grant from it: 100 leave the pool, 50 are booked
+//	history 1  affiliator campaign main = 10 / sub = -50: every grant pays 10 and books -40 (available grows)
+//	history 2  bet-bonus campaign with percentages main = -0.5 / sub = 0.25 on a bet of 100
+//	history 3  the promoter grants a withdraw authorization: MsgGrant cannot be decoded on the code as it is
+func (s *rwHist) runScript(name string, h int) {
+	now := BaseTime + 100
+	s.opTime(now)
+	s.opCreatePromoter(1, true)
+	honest := rwCreate{creator: 1, uid: 20, funds: oi(1000), promoter: 1, start: now, end: now + 100, cat: 1, rtype: 1, amtType: 1,
+		hasRA: true, sub: oi(100), unlock: 10, active: true}
+	s.nextUID = 30
+	grant := func(uid, campaign, receiver int, referee, bet int) {
+		s.opGrant(2, uid, &rwGrantOp{campaign: campaign, receiver: receiver, kyc: "011", srcOk: true, referee: referee, bet: bet}, false)
+	}
+	switch h % 4 {
+	case 0:
+		s.opCreateCampaign(honest)
+		bad := honest
+		bad.uid, bad.funds, bad.main = 21, oi(50), oi(-50)
+		s.opCreateCampaign(bad)
+		grant(30, 21, 3, 0, 0)
+	case 1:
+		s.opCreateCampaign(honest)
+		grant(30, 20, 3, 0, 0) // account 3 signs up
+		bad := rwCreate{creator: 1, uid: 21, funds: oi(50), promoter: 1, start: now, end: now + 100, cat: 3, rtype: 5, amtType: 1,
+			hasRA: true, main: oi(10), sub: oi(-50), unlock: 10, active: true}
+		s.opCreateCampaign(bad)
+		grant(31, 21, 4, 3, 0)
+		grant(32, 21, 4, 3, 0)
+	case 2:
+		s.opCreateCampaign(honest)
+		s.betIDs = append(s.betIDs, 1)
+		s.opBet(1, 3, 100, 2, true)
+		bad := rwCreate{creator: 1, uid: 21, funds: oi(50), promoter: 1, start: now, end: now + 100, cat: 6, rtype: 8, amtType: 3,
+			hasRA: true, mainPct: oi(-500000000000000000), subPct: oi(250000000000000000), unlock: 10, active: true,
+			consPresent: true, cons: 0}
+		s.opCreateCampaign(bad)
+		grant(30, 21, 3, 0, 1)
+	case 3:
+		s.opCreateCampaign(honest)
+		s.opAuthzGrant(1, 4, 2, oi(100), -1)
+		s.opWithdraw(4, 20, oi(40), 1)
 	}
 }
